@@ -173,6 +173,10 @@ class Normalizer:
                 self.env._stack.discard(node.id)
         if node.id in local_names(self.f.node):
             return ("n", node.id)
+        if node.id in self.model._local_imports(self.f):
+            r = self.model.resolve_expr(self.f, node)
+            if r is not None:
+                return self._ref(r, node)
         # enclosing function's locals
         p = self.f.parent
         while p is not None:
